@@ -375,7 +375,7 @@ def c12(ctx):
 
 
 # --------------------------------------------------------------------------- C03 / C04 / C14
-def run_crash(ctx, drv, n, ops, seed, torn="", depth=1, shards=8, par=2, walname=False, deep_every=6):
+def run_crash(ctx, drv, n, ops, seed, torn="", depth=1, shards=8, par=2, walname=False, deep_every=6, dur=False):
     def one(sh):
         out = os.path.join(ctx.scratch, "crash-%s-%d" % (torn or "p", sh))
         args = ["crash", "-seed", seed, "-n", n, "-ops", ops, "-out", out, "-shard", sh, "-shards", shards,
@@ -384,6 +384,8 @@ def run_crash(ctx, drv, n, ops, seed, torn="", depth=1, shards=8, par=2, walname
             args += ["-torn", torn]
         if walname:
             args += ["-walname"]
+        if dur:
+            args += ["-dur"]
         if depth > 1:
             args += ["-deep-every", deep_every]
         rc, o = ctx.drv(drv, args, timeout=3400 if ctx.quick else 14000)
@@ -511,13 +513,52 @@ def crash_cov(ctx, stats, rule):
                         images_by_next_fs_op=stats["by_op"]))
 
 
+def judge_dur(ctx, outs):
+    """Implementation level: the file-system + hook stream of every uncrashed crash-script run (committer,
+    flusher, compaction, Close, clean reopen) replayed on Crash.tla by TraceCrash.tla. Rejections are drift."""
+    cfg = open(os.path.join(tlc.SPECS, "TraceCrash.cfg")).read()
+    jobs = [(out, summ) for out, summ, o, rc in outs if summ and summ.get("dur_offsets")]
+
+    def one(job):
+        out, summ = job
+        return ctx.validate_batch(os.path.join(out, "dur.ndjson"), dict(offsets=summ["dur_offsets"]), max_rejections=2,
+                                  validator=lambda pth, to: tlc.validate_trace("TraceCrash", cfg, pth, timeout=to))
+
+    acc_total = ev_total = 0
+    for (out, summ), (acc, rej) in zip(jobs, ctx.par(one, jobs, workers=8)):
+        acc_total += acc
+        ev_total += summ.get("dur_events", 0)
+        for rj in rej:
+            ctx.drift.append("Crash.tla does not explain the file-system/hook stream of script %s at event %d: %s "
+                             "(implementation-level only; the contract judges separately)" % (
+                                 summ["dur_scripts"][rj["index"]], rj["rel"], json.dumps(rj["event"])))
+        # self-test of the binding (once per check): a wal deleted before its table was renamed must be rejected
+        if not ctx.cov.get("crash_binding_selftest") and not rej:
+            lines = [json.loads(x) for x in open(os.path.join(out, "dur.ndjson"))]
+            idx = [k for k in range(len(lines) - 1) if lines[k]["ev"] == "tab" and lines[k]["op"] == "rename"
+                   and lines[k + 1]["ev"] == "wal" and lines[k + 1]["op"] == "remove"]
+            if idx:
+                k = idx[len(idx) // 2]
+                lines[k], lines[k + 1] = lines[k + 1], lines[k]
+                cp = os.path.join(out, "dur-corrupt.ndjson")
+                open(cp, "w").write("\n".join(json.dumps(x) for x in lines[:k + 30]) + "\n")
+                rr = tlc.validate_trace("TraceCrash", cfg, cp)
+                if rr["accepted"] or rr["highwater"] != k + 1:
+                    raise Machinery("binding self-test failed: TraceCrash did not reject a wal removal moved before the "
+                                    "rename of its table at event %d (highwater %s)" % (k + 1, rr["highwater"]))
+                ctx.cov["crash_binding_selftest"] = "wal removal moved before the table rename (event %d) rejected there" % (k + 1)
+    ctx.cov["implementation_level_streams_accepted_by_Crash_tla"] = acc_total
+    ctx.cov["implementation_level_stream_events"] = ev_total
+
+
 @check("C03")
 def c03(ctx):
     drv = ctx.build()
     models.run_family(ctx, "crash")
     n, ops = (16, 12) if ctx.quick else (64, 14)
-    outs = run_crash(ctx, drv, n, ops, ctx.seed, depth=2, deep_every=30 if ctx.quick else 8, walname=True)
+    outs = run_crash(ctx, drv, n, ops, ctx.seed, depth=2, deep_every=30 if ctx.quick else 8, walname=True, dur=True)
     stats = judge_crash(ctx, outs, "c03", "c03")
+    judge_dur(ctx, outs)
     crash_cov(ctx, stats, "steered multi-key workloads with tiny thresholds (flush, cascaded compaction, reopen, Close); "
                           "a crash image is the directory copied while the engine is held before a file-system "
                           "operation (create/write/sync/rename/remove of wal and table files, by committer, flusher, "
